@@ -2,7 +2,19 @@
 idioms that pin behaviours the generators reach only occasionally."""
 from progdsl import *
 
+_TINY = lambda: Real(1, 60)        # 2^-60: non-zero, far below any tolerance somebody might be tempted to use
+_NTINY = lambda: Real(-1, 62)
 C01_PROBES = {
+    # truthiness of reals: exactly zero is false, everything else is true (conditions and boolean operators)
+    "tiny-real-truthiness": Prog([SetG("a", Int(0)), SetG("b", Int(0)), SetG("c", Int(0)),
+                                  If(_TINY(), SetG("a", Int(1))),
+                                  IfElse(_NTINY(), SetG("b", Int(1)), SetG("b", Int(2))),
+                                  C("IfFalse", [_TINY(), SetG("c", Int(1))]),
+                                  SetG("n", Op("Not", _TINY())), SetG("an", Op("And", _TINY(), Int(1))),
+                                  SetG("o", Op("Or", _NTINY(), Int(0))), SetG("x", Op("Xor", _TINY(), Int(0))),
+                                  Set("w", _TINY()), Set("k", Int(0)),
+                                  While(Rd("w"), Blk(Set("k", Op("Add", Rd("k"), Int(1))), Set("w", Int(0)))), SetG("k", Rd("k")),
+                                  SetG("z", Op("Not", Real(0, 0))), If(Real(0, 0), SetG("zz", Int(1)))]),
     # Array card evaluated while operands of an enclosing card are pending: its hidden local takes the
     # slot of the pending operand   10 + len([1,2,3])  ->  3
     "array-with-pending-operands": Prog([SetG("r", Op("Add", Int(10), Op("Len", Arr(Int(1), Int(2), Int(3)))))]),
@@ -85,6 +97,19 @@ C06_IDIOMS = {
                                                     ("inner", ["p", "q"], [Ret(Closure([], Ret(Op("Sub", Rd("p"), Rd("q")))))]),
                                                     ("noise", ["p", "q", "r"], [Set("s", Op("Add", Rd("p"), Rd("q"))), Set("t", Int(100)),
                                                                                 Set("u", Int(100)), Ret(Rd("s"))])),
+    # a capturing closure entered through a host function that re-enters the interpreter, and through a native-backed library
+    # function: reads and writes captured variables, and creates an inner closure that captures the callback's parameter
+    "captured-through-host-callback": Prog([Set("base", Int(100)), Set("n", Int(0)), Set("t", Arr(Int(3), Int(9), Int(4))),
+                                            SetG("r", Native("call1", Closure(["v"], Set("n", Op("Add", Rd("n"), Int(1))),
+                                                                              Ret(Op("Add", Rd("v"), Rd("base")))), Int(5))),
+                                            SetG("n", Rd("n")),
+                                            SetG("m", Call("std.min_by_key", Closure(["k", "v"], Ret(Op("Sub", Rd("base"), Rd("v")))), Rd("t"))),
+                                            Set("mk", Native("call1", Closure(["v"], Ret(Closure([], Ret(Op("Add", Rd("v"), Rd("base")))))), Int(7))),
+                                            SetG("q", Dyn(Rd("mk"))),
+                                            SetG("s", Call("std.sorted_by_key", Closure(["k", "v"], Set("n", Op("Add", Rd("n"), Int(10))),
+                                                                                        Ret(Op("Mul", Rd("v"), Rd("n")))), Rd("t"))),
+                                            SetG("n2", Rd("n"))],
+                                           natives=NATIVES + [{"name": "call1", "arity": 2, "beh": "call"}]),
     # closure capturing a parameter and a local of a function called with arguments, early return in between
     "capture-param-early-return": Prog([Set("k", Int(9)), Set("f", Call("mk", Int(4), Int(6))), SetG("r", Dyn(Rd("f"), Int(1)))],
                                        ("mk", ["a", "b"], [Set("s", Op("Add", Rd("a"), Rd("b"))),
@@ -95,6 +120,13 @@ C06_IDIOMS = {
 
 # ---- C07: sharing by reference through variables, fields, captured variables, parameters ------------------
 C07_IDIOMS = {
+    # a string-keyed field written twice (every write names the field by a fresh string object), garbage created in between
+    # and afterwards, then read, iterated and written a third time
+    "field-overwritten": Prog([Set("t", Table()), Set("t.name", Int(1)), Set("t.other", Str("x")), SetG("junk", Str("garbage one")),
+                               Set("t.name", Int(2)), SetG("junk", Str("garbage two")), SetG("junk2", Table()), SetG("junk", Str("garbage three")),
+                               SetG("a", Rd("t.name")), Set("t.name", Int(3)), SetG("junk", Str("garbage four")),
+                               SetG("b", Rd("t.name")), SetG("len", Op("Len", Rd("t"))),
+                               ForEach("", "k", "v", Rd("t"), Blk(Log(Rd("k"), Rd("v")))), SetG("t", Rd("t"))]),
     "alias-variable": Prog([Set("t", Table()), Set("u", Rd("t")), Set("t.a", Int(1)), C("AppendTable", [Int(5), Rd("u")]),
                             SetG("through_t", Rd("t")), SetG("through_u", Rd("u")), SetG("len", Op("Len", Rd("u")))]),
     "table-in-field": Prog([Set("inner", Table()), Set("outer", Table()), Set("outer.child", Rd("inner")),
